@@ -31,7 +31,7 @@ RULE = ("three-way handshakes between real ClientServerConnection / ServerClient
         "CRC recomputed as an attacker would); hello of a server with a foreign root key; hello re-signed with an attacker key; hello of "
         "another session of the same server; wrong / zero / other-session tokens in a challenge sealed under the right key; challenge sealed "
         "under another key; duplication and reordering of all three datagrams; truncation/extension; unauthenticated application datagrams "
-        "before any key; unanswered connect; trust-on-first-use and wrongly pinned clients; followed by application traffic both ways; "
+        "before any key; hellos with further unauthenticated messages stacked behind them in one datagram (both directions); unanswered connect; trust-on-first-use and wrongly pinned clients; followed by application traffic both ways; "
         "compared with the model: every recv result, event, status and the final state dumps; non-trivial = the script is not 'honest'")
 
 
@@ -154,7 +154,7 @@ def run(ctx):
     rng = ctx.rng
     n = ctx.scale(400, 6000)
     scripts = ["honest", "flip-client-hello", "flip-server-hello", "foreign-root", "resigned", "other-session", "wrong-token",
-               "other-key-challenge", "dup-reorder", "tofu", "pinned-other", "trunc-ext", "early-app", "no-answer"]
+               "other-key-challenge", "dup-reorder", "tofu", "pinned-other", "trunc-ext", "early-app", "no-answer", "stacked"]
     cases, outputs, logs = [], {}, {}
     for i in range(n):
         script = scripts[i % len(scripts)] if i < 3 * len(scripts) else rng.choice(scripts + ["flip-server-hello"] * 4)
